@@ -64,6 +64,11 @@ InvRelabel == Is1 =>
    /\ LeftEdge(r, r.lo) = LeftEdge(In1(cfg), In1(cfg).lo) /\ RightEdge(r, r.hi) = RightEdge(In1(cfg), In1(cfg).hi)
    /\ ZoomGrid1(r, 4 * cfg.pq[2], cfg.o * cfg.pq[1], cfg.m, cfg.zf) = Out1z(cfg)
 
+\* vacuity guard: MUST be refuted (MC_Zoom_vac.cfg) - the antecedents of InvSum / InvCom / InvUniform are satisfiable
+\* with a genuine zoom, a shift and a non-trivial image
+InvNeverCovers == (Is1 /\ cfg.pq # <<1, 1>> /\ cfg.o # 0) =>
+                     \A f \in Funs(cfg.n) : ~(/\ Covers1(In1(cfg), Out1(cfg), { i \in Idx(In1(cfg)) : Shift(f, cfg.lo)[i] # 0 })
+                                              /\ Cardinality({ i \in Idx(In1(cfg)) : Shift(f, cfg.lo)[i] # 0 }) >= 2)
 Is3 == cfg.kind = "d3"
 \* the closed form (triple sum) is the composition of the three 1-D passes of the implementation
 InvSeparable == Is3 => ThreePasses(F3(cfg), GI3(cfg), GO3(cfg)) = [ j \in Idx3(GO3(cfg)) |-> Interp3Num(F3(cfg), GI3(cfg), GO3(cfg), j) ]
